@@ -67,6 +67,22 @@ def run(ctx):
             if got != want or got_in != shp or int(np.prod(got)) != int(np.prod(shp)):
                 ctx.violate(case, "Flatten node types differ from reshaping a real array", {"site": "Flatten"},
                             observed={"in": got_in, "out": got}, required={"in": shp, "out": want})
+            # survives serialisation: dict and file round trips keep the flattened shape
+            import nir
+            from core import file_roundtrip
+            for how in ("dict", "file"):
+                try:
+                    g = nir.NIRGraph(nodes={"f": node}, edges=[])
+                    g2 = nir.NIRGraph.from_dict(g.to_dict()) if how == "dict" else file_roundtrip(g)
+                    got2 = [int(x) for x in np.asarray(g2.nodes["f"].output_type["output"]).ravel()]
+                    in2 = [int(x) for x in np.asarray(g2.nodes["f"].input_type["input"]).ravel()]
+                except Exception as ex:  # noqa
+                    got2, in2 = f"raised {type(ex).__name__}", None
+                ctx.count(f"Flatten_{how}_roundtrip")
+                if got2 != want or in2 != shp:
+                    ctx.violate(case, f"Flatten shape does not survive a {how} round trip",
+                                {"site": "Flatten", "what": f"{how}-roundtrip"},
+                                observed={"in": in2, "out": got2}, required={"in": shp, "out": want})
         cases.append(case); obs.append(o); reqs.append(case)
     ctx.compare("nodes", cases, obs, reqs)
     from props import graphs
